@@ -7,6 +7,9 @@
 use serde::ser::Error;
 
 mod impls;
+#[cfg(dfinity_candid_verif)]
+#[doc(hidden)]
+pub use impls::verif_hooks;
 pub mod internal;
 pub mod subtype;
 pub mod type_env;
